@@ -231,6 +231,25 @@ Theorem C01_le_signed_roundtrip : forall k z, (1 <= k)%nat -> in_range_s (8 * N.
 Proof. exact le_signed_roundtrip. Qed.
 Print Assumptions C01_le_signed_roundtrip.
 
+(* the zig-zag transforms AS THE RUNTIMES COMPUTE THEM - shifts, masks and exclusive or on W-bit words (C++ W = 32, 64; MATLAB the
+   64-bit forms) and on Python's unbounded integers (Model.ZigZagBits, text-tied to coded_stream.h, _binary.py and the MATLAB coded
+   streams on every run) - are the arithmetic zig-zag of the model on the whole W-bit range, for every W >= 1 *)
+From YV Require Import Model.ZigZagBits Proofs.ZigZagBitsProofs.
+Theorem C01_zigzag_bits_cpp_encode : forall w v, (1 <= w)%Z -> (- 2 ^ (w - 1) <= v < 2 ^ (w - 1))%Z ->
+  cpp_zz_enc w v = Z.of_N (zz_enc v).
+Proof. exact cpp_zz_enc_correct. Qed.
+Print Assumptions C01_zigzag_bits_cpp_encode.
+Theorem C01_zigzag_bits_cpp_decode : forall w (n : N), (1 <= w)%Z -> (Z.of_N n < 2 ^ w)%Z ->
+  cpp_zz_dec w (Z.of_N n) = zz_dec n.
+Proof. exact cpp_zz_dec_correct. Qed.
+Print Assumptions C01_zigzag_bits_cpp_decode.
+Theorem C01_zigzag_bits_py_encode : forall v, (- 2 ^ 63 <= v < 2 ^ 63)%Z -> py_zz_enc v = Z.of_N (zz_enc v).
+Proof. exact py_zz_enc_correct. Qed.
+Print Assumptions C01_zigzag_bits_py_encode.
+Theorem C01_zigzag_bits_py_decode : forall n : N, py_zz_dec (Z.of_N n) = zz_dec n.
+Proof. exact py_zz_dec_correct. Qed.
+Print Assumptions C01_zigzag_bits_py_decode.
+
 (* non-vacuity *)
 Example C01_hyp_sat :
   steps_ok [SValue (TRec [TPrim PString; TOpt (TPrim PInt32)]); SStream (TUnion true [TPrim PFloat32; TVec (TPrim PUint16)])]
